@@ -1345,7 +1345,7 @@ sec_oaep(const rkey *k, const impl_t *m)
 	mk_pk(&pv, k, 0, 0);
 	mk_pk(&pz, k, 1 + vf_below(&R, 3), vf_below(&R, 2));
 	drbg_init(&dc);
-	g_allow = budget(k, m, 1, g_tier ? (long)(m->cost <= 12 ? nlen + 60 : nlen / 4 + 20) : 5, g_tier ? 1200 : 60);
+	g_allow = budget(k, m, 1, g_tier ? (long)(m->cost <= 12 ? nlen + 60 : nlen / 8 + 16) : 5, g_tier ? 1200 : 60);
 	for (it = 0; it < ncombo; it ++) {
 		const hdesc *h = &HASHES[(unsigned)((unsigned long)it + (unsigned)g_unit + g_seed) % NHASH];
 		size_t hl = h->hlen;
@@ -1653,7 +1653,7 @@ sec_tls(const rkey *k, const impl_t *m)
 		skv sv;
 		size_t must[64], nm = 0, np_;
 		int v, vv;
-		g_allow = budget(k, m, 1, g_tier ? (long)(m->cost <= 12 ? nlen + 10 : nlen / 4 + 10) : 5, g_tier ? 700 : 60);
+		g_allow = budget(k, m, 1, g_tier ? (long)(m->cost <= 12 ? nlen + 10 : nlen / 8 + 10) : 5, g_tier ? 700 : 60);
 		mk_sk(&sv, k, 0, NULL);
 		em[0] = 0; em[1] = 2;
 		for (u = 2; u < nlen - 49; u ++) em[u] = (unsigned char)vf_range(&R, 1, 255);
